@@ -2448,7 +2448,7 @@ def py_literal(pv, ty):
     raise Unsupported('literal of type %r' % ty)
 
 split_on = z3.Function('split_on', StrS, StrS, z3.SeqSort(StrS))
-sqrt_fn = z3.Function('sqrt', RealS, RealS)
+sqrt_fn = z3.Function('py_sqrt', RealS, RealS)      # (not 'sqrt': cvc5 reserves that symbol)
 from .spec import SpecAcc as _SpecAcc
 # reduce_fn(c, fs, t): the left fold of the first t+1 callables of fs with the combinator c
 reduce_fn = _SpecAcc('reduce_left', [CombS, z3.SeqSort(Fn)], lambda c, fs: fs[0], lambda c, fs, t, prev: comb2(c, prev, fs[t + 1]), result=Fn)
